@@ -86,7 +86,7 @@ pub fn run(sink: &mut Sink, rng: &mut Rng, args: &Args) {
 
     // ------------------------------------------------------------ Dataset flat KNN
     let mut s = Stream::new("knn", REQ, "chk_find", "ety * metric * list (option Z) * list (option Z) * nat", "outcome (list (N * xval))");
-    s.shard = 200;
+    s.shard = 60;
     let dir = tempfile::tempdir().unwrap();
     for di in 0..args.vol(4, 24) {
         let dim = *rng.pick(&[3usize, 8, 13, 16, 33, 64]);
